@@ -119,6 +119,34 @@ pub fn programs() -> Vec<(String, Module)> {
             vec![("spin".into(), spin_clone(k))],
         ));
     }
+    // natives invoked as function values (CallFunction dispatches to the native), in loops so that
+    // a budget error per call accumulates
+    for k in [4i64, 30, -1] {
+        let spin1 = func(&["x"], vec![sv("n", int(0)), if k < 0 { C::While(b(int(1)), b(sv("n", add(rv("n"), int(1))))) } else { C::Repeat { n: b(int(k)), i: None, body: b(sv("n", add(rv("n"), int(1)))) } }, C::Return(b(add(rv("x"), rv("n"))))]);
+        v.push(m1(
+            &format!("dyn-native-reenter-spin{k}"),
+            vec![sv("c", int(0)), C::Repeat { n: b(int(6)), i: None, body: b(comp(vec![sink(C::DynCall(b(C::NativeFunction("reenter1".into())), vec![C::Function("spin".into()), int(5)])), sv("c", add(rv("c"), int(1)))])) }, sg("done", rv("c"))],
+            vec![("spin".into(), spin1.clone())],
+        ));
+        v.push(m1(
+            &format!("dyn-native-variable-reenter-spin{k}"),
+            vec![sv("f", C::NativeFunction("reenter1".into())), sv("c", int(0)), C::Repeat { n: b(int(6)), i: None, body: b(comp(vec![sink(C::DynCall(b(rv("f")), vec![C::Function("spin".into()), int(5)])), sink(native("log", vec![rv("c")])), sv("c", add(rv("c"), int(1)))])) }, sg("done", rv("c"))],
+            vec![("spin".into(), spin1)],
+        ));
+        for nat in ["__sort", "__min", "__max"] {
+            let mut main = table3();
+            main.push(sv("c", int(0)));
+            main.push(C::Repeat { n: b(int(5)), i: None, body: b(comp(vec![sink(C::DynCall(b(C::NativeFunction(nat.into())), vec![rv("t"), C::Function("kf".into())])), sink(native("log", vec![rv("c")])), sv("c", add(rv("c"), int(1)))])) });
+            main.push(sg("done", rv("c")));
+            v.push(m1(&format!("dyn-native{nat}-spin{k}"), main, vec![keyfn("kf", k, vec![])]));
+        }
+        let spin0 = spin_clone(k);
+        v.push(m1(
+            &format!("dyn-native-try-call-spin{k}"),
+            vec![sv("c", int(0)), C::Repeat { n: b(int(8)), i: None, body: b(comp(vec![sink(C::DynCall(b(C::NativeFunction("try_call".into())), vec![C::Function("spin".into())])), sink(native("log", vec![rv("c")])), sv("c", add(rv("c"), int(1)))])) }, sg("done", rv("c"))],
+            vec![("spin".into(), spin0)],
+        ));
+    }
     // closures and dynamic calls in loops
     v.push(m1(
         "closure-loop",
